@@ -386,6 +386,7 @@ impl<'a> ColorGlyph<'a> {
                     &mut cycle_guard,
                     &mut resolved_stops,
                     0,
+                    false,
                 )?;
 
                 if clipbox.is_some() {
